@@ -28,7 +28,7 @@ FromLog(r) ==
 TraceInit ==
   /\ Trace[1].ev.name = "Init"
   /\ st = FromLog(Trace[1].st) /\ pre = FromLog(Trace[1].st)
-  /\ ev = Trace[1].ev /\ gh = GhostInit /\ hist = <<>>
+  /\ ev = Trace[1].ev /\ gh = GhostOf(FromLog(Trace[1].st)) /\ hist = <<>>
   /\ l = 2 /\ drift = 0 /\ driftAt = 0
 
 Predicted(s, e) ==
@@ -44,7 +44,7 @@ TraceNext ==
          t == FromLog(Trace[l].st)
      IN /\ ev' = e /\ st' = t
         /\ IF e.name = "Init"
-           THEN /\ gh' = GhostInit /\ pre' = t
+           THEN /\ gh' = GhostOf(t) /\ pre' = t
                 /\ UNCHANGED <<drift, driftAt>>
            ELSE /\ gh' = GhostStep(gh, st, e, t) /\ pre' = st
                 /\ LET d == (~e.halt) /\ Predicted(st, e) # Observed(e, t) IN
@@ -66,7 +66,14 @@ Clauses ==
    C13_QueueComplete_Random |-> C13_QueueComplete_Random(st, gh),
    C13_OnceOnTime_Random |-> C13_OnceOnTime_Random(pre, ev, st, gh),
    C13_NoHalt |-> C13_NoHalt(ev),
-   Rejected_NoEffect |-> Rejected_NoEffect(pre, ev, st)]
+   Rejected_NoEffect |-> Rejected_NoEffect(pre, ev, st),
+   X18_ResultHeight |-> X18_ResultHeight(pre, ev, st),
+   X18_DupReplace |-> X18_DupReplace(pre, ev, st),
+   X18_DupOrphan |-> X18_DupOrphan(st, gh),
+   X18_DupResult |-> X18_DupResult(pre, ev, st, gh),
+   X18_LateAnswer |-> X18_LateAnswer(pre, ev, st),
+   X18_WrapStale |-> X18_WrapStale(pre, ev, st, gh),
+   X18_ZeroHeightQueue |-> X18_ZeroHeightQueue(pre, ev, st)]
 
 Failing == IF ev.name = "Init" \/ ev.halt
            THEN (IF ev.halt THEN {"C13_NoHalt"} ELSE {})
@@ -78,7 +85,8 @@ Monitor == Failing = {} \/ PrintT(<<"CLAUSE-FAIL", l - 1, Failing, Apply(pre, ev
 Exercised ==
   IF ev.name = "Init" THEN {} ELSE
   {c \in {"req_ok", "req_oracle_ok", "fulfil_block", "fulfil_oracle", "drop_err", "drop_bad",
-          "drop_timeout", "drop_funds", "same_height_many", "dup_id", "reject", "skip_batch"} :
+          "drop_timeout", "drop_funds", "same_height_many", "dup_id", "reject", "skip_batch",
+          "dup_replace", "dup_orphan", "dup_rewrite", "late_answer", "wrap", "zero_height"} :
      CASE c = "req_ok" -> ev.name = "RequestRandom" /\ ev.ok /\ ~ev.oracle
        [] c = "req_oracle_ok" -> ev.name = "RequestRandom" /\ ev.ok /\ ev.oracle
        [] c = "fulfil_block" -> ev.name = "BeginBlock" /\ Changed(pre, st) # {}
@@ -95,6 +103,12 @@ Exercised ==
        [] c = "drop_funds" -> ev.name = "EndBlock" /\ \E x \in DOMAIN pre.opend :
                                   x \notin DOMAIN st.opend /\ x \in DOMAIN st.ctx /\ st.ctx[x].state = "paused"
        [] c = "dup_id" -> ev.name = "RequestRandom" /\ ev.ok /\ ~Single(gh, ReqId(ev.who, pre.h))
+       [] c = "dup_replace" -> Replaced(pre, ev) # {}
+       [] c = "dup_orphan" -> \E q \in Replaced(pre, ev) : q.oracle
+       [] c = "dup_rewrite" -> ev.name = "BeginBlock" /\ \E id \in Changed(pre, st) : id \in DOMAIN pre.results
+       [] c = "late_answer" -> ev.name = "Respond" /\ ~ev.ok /\ ev.ctx \notin DOMAIN pre.ctx /\ ev.ctx # ""
+       [] c = "wrap" -> ev.name = "RequestRandom" /\ ev.ok /\ ev.n < 0
+       [] c = "zero_height" -> ev.name = "ZeroHeight" /\ ev.ok /\ pre.pending # {}
        [] c = "reject" -> ~ev.ok}
 Coverage == Exercised = {} \/ PrintT(<<"EXERCISED", Exercised>>)
 
